@@ -18,12 +18,14 @@ TInit == FInit /\ tid \in (IF TIDS = 0 THEN 1..Len(Traces) ELSE {TIDS}) /\ l = 1
 
 TSetup == IsEvent("setup") /\ Setup(Ev.X, Ev.K, Ev.par)
 ArgsMatch == SetOf(Ev.expl) = expl /\ Ev.nC = st.nC /\ Ev.nL = st.nL /\ Ev.kmax = par.kmax /\ Ev.minleaf = par.minleaf
+TZeroSplit == /\ IsEvent("step") /\ Ev.pos /\ Ev.gain = 0 /\ Ev.gainok /\ ArgsMatch
+              /\ \E c \in CandsNow(SetOf(Ev.fsub)) : Matches(c) /\ ZeroGainSplit(SetOf(Ev.fsub), c)
 TSplit == /\ IsEvent("step") /\ Ev.gain > 0 /\ Ev.gainok /\ ArgsMatch
           /\ \E c \in CandsNow(SetOf(Ev.fsub)) : Matches(c) /\ G(c) = Ev.gain /\ SplitStep(SetOf(Ev.fsub), c)
-TNoGain == /\ IsEvent("step") /\ Ev.gain <= 0 /\ ArgsMatch /\ NoGainStep(SetOf(Ev.fsub))
+TNoGain == /\ IsEvent("step") /\ ~Ev.pos /\ Ev.gain <= 0 /\ ArgsMatch /\ NoGainStep(SetOf(Ev.fsub))
 TKnownSplit == /\ IsEvent("step") /\ Ev.gain > 0 /\ ArgsMatch
                /\ \E c \in CandsNow(SetOf(Ev.fsub)) : Matches(c) /\ KnownDStarSplit(SetOf(Ev.fsub), c, Ev.gain)
-TKnownStop == /\ IsEvent("step") /\ Ev.gain <= 0 /\ ArgsMatch /\ KnownDStarStop(SetOf(Ev.fsub))
+TKnownStop == /\ IsEvent("step") /\ ~Ev.pos /\ Ev.gain <= 0 /\ ArgsMatch /\ KnownDStarStop(SetOf(Ev.fsub))
 TreeMatches(t) ==
     /\ Len(t.left) = Len(tree)
     /\ \A i \in 1..Len(tree) :
@@ -37,7 +39,7 @@ TEnd == /\ IsEvent("end") /\ Finish
         /\ \A q \in 1..Len(Ev.queries) : Route(Ev.queries[q]) = Ev.pred[q]
         /\ (dev = 0 => Ev.scoreok /\ Ev.score = ObjLab(K, Lab(st)))
 
-TNext == TSetup \/ TSplit \/ TNoGain \/ TKnownSplit \/ TKnownStop \/ TEnd
+TNext == TSetup \/ TSplit \/ TZeroSplit \/ TNoGain \/ TKnownSplit \/ TKnownStop \/ TEnd
 TSpec == TInit /\ [][TNext]_tvars
 
 (* acceptance: the whole trace was consumed; the harness collects these lines *)
